@@ -169,7 +169,7 @@ structure Probe where
 /-- sample locations for one case -/
 def probes (A : Flat) (F : Feat) (r : Radii) (ad : Rat) (salt : Nat) : List Probe :=
   let vertsAll := (A.pts ++ A.lines.flatten ++ A.polys.flatten.flatten).eraseDups
-  let segsAll := F.segs
+  let segsAll := F.segs.map (·.s)
   let xs := vertsAll.map (·.x); let ys := vertsAll.map (·.y)
   match xs, ys with
   | x0 :: _, y0 :: _ =>
@@ -218,20 +218,27 @@ def probes (A : Flat) (F : Feat) (r : Radii) (ad : Rat) (salt : Nat) : List Prob
 def getInt (o : List (String × String)) (k : String) : Option Int := (o.lookup k).bind String.toInt?
 
 /-- check the sample locations; returns the first contradiction -/
-def checkSamples (c : Case) (A : Flat) (res : List (List (List Pt))) (maxAbs : Int) (salt : Nat) : Option String :=
+def checkSamples (c : Case) (A : Flat) (res : List (List (List Pt))) (maxAbs : Int) (salt : Nat) (big : Bool) (stats : Bool := false) : Option String :=
   let cfgCap := effCap c.cap; let cfgJoin := effJoin c.join
   let qEff := quadSegsEff c.q
   let r := mkRadii c qEff cfgJoin cfgCap maxAbs
   let ad := ratAbs c.d
   let fJ := qOfRat r.fJoin2; let fC := qOfRat r.fCap2
+  let m2 := qOfRat (sq (ad / 1000000 + r.tol))
   let F : Feat := if c.d > 0 then featOf cfgCap cfgJoin false A else featPolys cfgJoin A
   let Fprobe : Feat := if c.d > 0 then F else featOf cfgCap cfgJoin false A
   let ps := probes A Fprobe r ad salt
+  -- Round joins with round / square caps: the ideal buffer contains the Minkowski sum, so the inner claims hold in
+  -- every regime.  Flat caps and mitre / bevel joins "only really make sense for relatively small buffer distances"
+  -- (OffsetSegmentGenerator.cpp): their inner claims are made only while |d| ≤ the shortest input segment, and with
+  -- a 10 % margin (the input simplification by d/100 moves offset segments of concave corners).
+  let strict := cfgJoin == .round && (cfgCap == .round || cfgCap == .square)
   let verdict (p : HPt) (gross : Bool) : Verdict :=
-    let rin := optSq (if gross then r.rInG else r.rIn)
+    let rinR : Rat := if gross then r.rInG else r.rIn
+    let rin := if strict then optSq rinR else if big then none else optSq (rinR * 9 / 10)
     let rout := qOfRat (sq (if gross then r.rOutG else r.rOut))
-    if c.d > 0 then verdictPos F p rin rout fJ fC
-    else if c.d < 0 then verdictNeg F p rin rout fJ c.polyValid
+    if c.d > 0 then verdictPos F p rin rout m2 fJ fC
+    else if c.d < 0 then verdictNeg F p rin rout m2 fJ c.polyValid
     else verdictZero F p
   let d2 := qOfRat (sq ad)
   let rec go : List Probe → Option String
@@ -247,10 +254,18 @@ def checkSamples (c : Case) (A : Flat) (res : List (List (List Pt))) (maxAbs : I
       let clause := if v == .mustIn then "inner" else "outer"
       let ratio := match Fprobe.dist2 pr.p with | some dd => permille dd d2 | none => 0
       some s!"bad {clause} tier={tier} at={pr.kind} q={qEff} sign={if c.d > 0 then 1 else if c.d < 0 then -1 else 0} ratio={ratio} sample={showH pr.p}"
-  go ps
+  if stats then
+    -- tallies for the evidence: how many locations were asserted inside / outside / left free / fell on the result boundary
+    let t := ps.foldl (fun (t : Nat × Nat × Nat × Nat) pr =>
+      match verdict pr.p false with
+      | .free => (t.1, t.2.1, t.2.2.1 + 1, t.2.2.2)
+      | v => if locateResult res pr.p == .boundary then (t.1, t.2.1, t.2.2.1, t.2.2.2 + 1)
+             else if v == .mustIn then (t.1 + 1, t.2.1, t.2.2.1, t.2.2.2) else (t.1, t.2.1 + 1, t.2.2.1, t.2.2.2)) (0, 0, 0, 0)
+    some s!"stats in={t.1} out={t.2.1} free={t.2.2.1} bnd={t.2.2.2}"
+  else go ps
 
 /-- vertices of an offset curve / single-sided result: within the distance bound and on the requested side -/
-def checkVertices (c : Case) (A : Flat) (vs : List Pt) (maxAbs : Int) (lower : Bool) (leftSide : Bool) (polyInput : Bool) : Option String :=
+def checkVertices (c : Case) (A : Flat) (vs : List Pt) (maxAbs : Int) (lower : Bool) (leftSide : Bool) (polyInput : Bool) (big : Bool) : Option String :=
   let cfgJoin := effJoin c.join
   let qEff := quadSegsEff c.q
   let r := mkRadii c qEff cfgJoin .round maxAbs
@@ -274,16 +289,17 @@ def checkVertices (c : Case) (A : Flat) (vs : List Pt) (maxAbs : Int) (lower : B
         else if lower && (match lo2 with | some l => !l.le dm | none => false) then
           some s!"bad near tier={if (match lo2G with | some l => !l.le dm | none => false) then "gross" else "doc"} q={qEff} ratio={ratio} vertex={showH p}"
         else
-          -- side: some nearest segment has the vertex on the requested side (or on its line, within tolerance)
-          let cand := F.segs.filter fun s => (d2Seg p s).le (qMul dm ⟨1000004, 1000000⟩) || (d2Seg p s).le sideTol2
-          let okSide := polyInput || cand.isEmpty || cand.any fun s =>
+          -- side: the vertex lies in the one-sided band of some segment: within the distance bound of it and on the
+          -- requested side of its line (or on the line, within tolerance)
+          let cand := (F.segs.map (·.s)).filter fun s => (d2Seg p s).le hi2
+          let okSide := polyInput || big || cand.isEmpty || cand.any fun s =>
             let dt := detH s.p s.q p
             let sg := if leftSide then dt else -dt
             decide (sg ≥ 0) || (Q.le ⟨dt * dt, s.sqLen⟩ sideTol2)
           if okSide then go rest else some s!"bad side q={qEff} ratio={ratio} vertex={showH p}"
   go vs
 
-def checkBuffer (line : String) : String :=
+def checkBuffer (stats : Bool) (line : String) : String :=
   match splitBar (Driver.tokens line) with
   | [["B"], tin, par, st, tres] =>
     let o := kv (par ++ st)
@@ -304,6 +320,13 @@ def checkBuffer (line : String) : String :=
                             polyValid := get "pv" == "1" }
           let maxAbs := (ds.map fun d => (F64.scaleTo e0 d).natAbs).foldl max 1
           let salt := (dbits.toNat / 8 + c.q.natAbs * 7 + ords.length) % 1000
+          -- structural features for finding signatures: is |d| larger than the shortest input segment?  is a closed line present?
+          let segL := (A.segs.map (·.sqLen)).filter (· > 0)
+          let minL : Int := segL.foldl min (segL.headD 0)
+          let big := !segL.isEmpty && decide (sq c.d > (minL : Rat))
+          let closed := A.lines.any fun l => l.length ≥ 4 && l.head? == l.getLast?
+          let tag (e : String) : String := if e == "ok" || e.startsWith "stats" then e else e ++ s!" reg={if big then "big" else "small"} closed={if closed then 1 else 0}"
+          tag <|
           if c.mode == "buf" then
             match resultPolys toI gres.g with
             | none => "bad type"
@@ -314,11 +337,11 @@ def checkBuffer (line : String) : String :=
               if !(rings.all fun r => r.length > 80 || ringSimple r) then "bad ring-self-intersection" else
               if c.ss then
                 let left := c.d > 0
-                match checkVertices c A rings.flatten (Int.ofNat maxAbs) false left (!A.polys.isEmpty) with
+                match checkVertices c A rings.flatten (Int.ofNat maxAbs) false left (!A.polys.isEmpty) big with
                 | some e => e ++ " mode=ss"
                 | none => "ok"
               else
-                match checkSamples c A res (Int.ofNat maxAbs) salt with
+                match checkSamples c A res (Int.ofNat maxAbs) salt big stats with
                 | some e => e
                 | none => "ok"
           else
@@ -328,7 +351,9 @@ def checkBuffer (line : String) : String :=
             | some ls =>
               if get "valid" != "1" then "bad invalid" else
               let left := if c.mode == "ssb" then c.left else c.d > 0
-              match checkVertices c A ls.flatten (Int.ofNat maxAbs) true left (!A.polys.isEmpty) with
+              -- lower bound: only for GEOSOffsetCurve with round joins (bevels / mitres cut corners; GEOSSingleSidedBuffer has flat caps whose
+              -- edges legitimately come closer) and only while |d| ≤ the shortest segment
+              match checkVertices c A ls.flatten (Int.ofNat maxAbs) (c.mode == "oc" && effJoin c.join == .round && !big) left (!A.polys.isEmpty) big with
               | some e => e ++ s!" mode={c.mode}"
               | none => "ok"
         | _, _ => "skip non-finite"
@@ -348,7 +373,7 @@ def checkFillet (line : String) : String :=
       let x := t + 1 / 2
       let fr := x - (x.floor : Rat)
       if fr < 1 / 1000000 || fr > 999999 / 1000000 then "edge"
-      else s!"{nSegs t} {filletInterior t}"
+      else s!"{filletInterior t}"
     | none => "parse-error"
   | _ => "bad-line"
 
@@ -369,42 +394,49 @@ def optNat : Option Nat → String
   | some n => toString n
   | none => "x"
 
+def probesOf (c : Config) : String := s!"{pointProbe c} {optNat (cornerProbe c)}"
+
 def checkParams (line : String) : String :=
   match splitBar (Driver.tokens line) with
   | ["S"] :: sets =>
-    -- setter sequence on a GEOSBufferParams object: return codes, then the stored object
+    -- setter sequence on a GEOSBufferParams object: return codes, the stored object, then two probe buffers
     match sets.mapM parseSetter with
     | some ss =>
       let (c, rs) := runSetters Config.default ss
       let codes := String.ofList (rs.map fun b => if b then '1' else '0')
-      s!"{codes} | {showCfg c} | eff {c.effQuad} {repr (effCap c.endCap)} {repr (effJoin c.join)} {c.closingFactor} | probes {pointProbe c} {optNat (cornerProbe c)}"
+      let pr := if !c.singleSided && c.quadSegs ≤ 64 then probesOf c else "-"
+      s!"{codes} | {showCfg c} | probes {pr}"
     | none => "parse-error"
   | [["W", q, cap, join, m]] =>
     match q.toInt?, cap.toInt?, join.toInt?, Driver.parseHex64 m with
     | some q, some cap, some join, some m =>
       match (Entry.withStyle q cap join m).config with
       | none => "rej"
-      | some c => s!"ok {pointProbe c} {optNat (cornerProbe c)}"
+      | some c => s!"ok {probesOf c}"
     | _, _, _, _ => "parse-error"
   | [["G", q]] =>
     match q.toInt? with
     | some q => match (Entry.buffer q).config with
       | none => "rej"
-      | some c => s!"ok {pointProbe c} {optNat (cornerProbe c)}"
+      | some c => s!"ok {probesOf c}"
     | none => "parse-error"
   | [["O", q, join, m]] =>
     match q.toInt?, join.toInt?, Driver.parseHex64 m with
     | some q, some join, some m =>
-      match (Entry.offsetCurve q join m).config with
-      | none => "rej"
-      | some c => s!"ok {optNat (cornerProbe c)}"
+      match (Entry.offsetCurve q join m).config.bind cornerProbe with
+      | none => "null"
+      | some k => s!"ok {k}"
     | _, _, _ => "parse-error"
   | [["D", q, join, m, l]] =>
     match q.toInt?, join.toInt?, Driver.parseHex64 m, l.toInt? with
     | some q, some join, some m, some l =>
       match (Entry.singleSidedBuffer q join m l).config with
-      | none => "rej"
-      | some c => s!"ok {optNat (cornerProbe c)} {if leftSideOf l then "L" else "R"}"
+      | none => "null"
+      | some c =>
+        -- the two-sided flat-cap buffer is built first, so the outside join exists whichever side is asked for
+        match cornerProbe c with
+        | none => "null"
+        | some k => if leftSideOf l then "ok L" else s!"ok R {k}"
     | _, _, _, _ => "parse-error"
   | _ => "bad-line"
 
@@ -412,7 +444,8 @@ end Driver.C06
 
 def main (args : List String) : IO UInt32 := do
   match args with
-  | ["buffer"] => Driver.loop (← IO.getStdin) (← IO.getStdout) Driver.C06.checkBuffer; return 0
+  | ["buffer"] => Driver.loop (← IO.getStdin) (← IO.getStdout) (Driver.C06.checkBuffer false); return 0
+  | ["buffer-stats"] => Driver.loop (← IO.getStdin) (← IO.getStdout) (Driver.C06.checkBuffer true); return 0
   | ["fillet"] => Driver.loop (← IO.getStdin) (← IO.getStdout) Driver.C06.checkFillet; return 0
   | ["params"] => Driver.loop (← IO.getStdin) (← IO.getStdout) Driver.C06.checkParams; return 0
   | _ => IO.eprintln "usage: drv_c06 buffer|fillet|params"; return 2
